@@ -1,11 +1,15 @@
-"""C19 (clause: data-independence) -- no value loaded from either compared region reaches a branch condition,
-a select condition, a memory address, a division/remainder operand, or an argument of a non-pure call.
-The result clause (0-iff-equal / sign of first difference) is value-level and is NOT decided here."""
+"""C19 -- timingsafe comparisons are data-independent and correct.
+Clause 1 (data-independence): no value loaded from either compared region reaches a branch condition, a select condition, a memory
+address, a division/remainder operand, or an argument of a non-pure call (taint analysis).
+Clause 2 (result): relational value-set abstract interpretation (sa/relval.py): the byte streams are abstracted to the relation of the
+current pair (<, =, >); the loop-carried accumulators are followed over all sequences of relations to a fixpoint together with the
+sign of the first difference, and the value returned from every reachable state is compared with it: timingsafe_bcmp returns 0 iff
+no pair differed, timingsafe_memcmp a value with the sign of the first differing pair."""
 import os
 from ..ir import Program, operands
 from ..derive import derive, labels_of, taint
 from ..effects import is_pure_intrinsic
-from .. import frontend
+from .. import frontend, relval
 
 TARGETS = {"_timingsafe_bcmp_chk": "src/extmem/timingsafe_bcmp.c", "_timingsafe_memcmp_chk": "src/extmem/timingsafe_memcmp.c"}
 
@@ -51,6 +55,36 @@ def analyse_fn(fn, secret_params=None):
     return len(src), len(t), viol
 
 
+RESULT_SPEC = {"_timingsafe_bcmp_chk": "zero-iff-equal", "_timingsafe_memcmp_chk": "sign-of-first-difference",
+               "good_bcmp": "zero-iff-equal", "good_memcmp": "sign-of-first-difference", "bad_result_done": "sign-of-first-difference", "bad_result_bcmp": "zero-iff-equal"}
+
+
+def result_rule(fn, spec):
+    """(states explored, [violation texts])"""
+    b1, b2 = fn.pnames.get("b1"), fn.pnames.get("b2")
+    r = relval.analyse_loop(fn, {b1["id"]: 1, b2["id"]: 2})
+    bad = []
+    for ghost, v in r["exits"]:
+        vals = relval._vals(v) if v is not None else None
+        if spec == "zero-iff-equal":
+            ok = (v is not None and ((ghost == 0 and vals == frozenset([0])) or
+                                     (ghost != 0 and ((vals is not None and 0 not in vals) or (v[0] == "rng" and (v[1] > 0 or v[2] < 0))))))
+            want = "0" if ghost == 0 else "non-zero"
+        else:
+            if ghost == 0:
+                ok = vals == frozenset([0])
+            elif ghost < 0:
+                ok = (vals is not None and all(x < 0 for x in vals)) or (v is not None and v[0] == "rng" and v[2] < 0)
+            else:
+                ok = (vals is not None and all(x > 0 for x in vals)) or (v is not None and v[0] == "rng" and v[1] > 0)
+            want = {0: "0", -1: "a negative value", 1: "a positive value"}[ghost]
+        if not ok:
+            shown = "unknown" if v is None else (sorted(vals)[:6] if vals is not None else "%d..%d" % (v[1], v[2]))
+            bad.append("after a sequence of byte pairs whose first difference is %s the function can return %s, expected %s"
+                       % ({0: "absent (all pairs equal)", -1: "'less'", 1: "'greater'"}[ghost], shown, want))
+    return r["states"], sorted(set(bad))
+
+
 def run(ck):
     tier = ck.tier
     levels = ["O0"] + (["O1", "O2", "O3"] if tier == "thorough" else [])
@@ -80,10 +114,19 @@ def run(ck):
                 ck.report("C19:%s:%s:%s" % (name, kind.split(" passed to ")[0].replace(" ", "-"), ol), "T-secret-independent", fn.loc(i),
                           "%s (%s IR): %s at %s" % (name, ol, kind, fn.loc(i)), dict(inst={k: v for k, v in i.items() if not k.startswith("_")}))
             ck.sample(dict(function=name, opt=ol, secret_loads=nsrc, tainted_values=nt, sinks_checked=ninst, verdict="no tainted sink" if not viol else "VIOLATION"))
+            if ol == "O0":
+                try:
+                    nst, bad = result_rule(fn, RESULT_SPEC[name])
+                    per["%s@%s" % (name, ol)]["result_clause"] = dict(spec=RESULT_SPEC[name], abstract_states=nst, violations=len(bad))
+                    for k_, b_ in enumerate(bad):
+                        ck.report("C19:%s:wrong-result#%d" % (name, k_), "R-result-from-relations", "%s:%s" % (fn.file, fn.line), "%s: %s" % (name, b_))
+                except relval.Undecidable as e:
+                    ck.fail_broken("%s: result clause not decidable on this shape: %s" % (name, e))
     fx = selftest(ck)
     cov = dict(explanation="Taint analysis over the SSA IR of the two timingsafe functions (%s): sources = every load through a pointer derived from "
                "either region parameter (and results of calls reading them); sinks = branch/switch/select conditions, load/store addresses, "
-               "division operands, arguments of non-pure calls. All instructions of both functions are checked; no value-level claim is made about the result." % ", ".join(levels),
+               "division operands, arguments of non-pure calls. All instructions of both functions are checked. Result clause: the loop accumulators are followed over all sequences of byte-pair relations (<, =, >) "
+               "to a fixpoint and the value returned from every reachable abstract state is compared with 0-iff-equal / the sign of the first difference (sa/relval.py)." % ", ".join(levels),
                exhaustive=True, obligations=total_ob, discharged=total_ob - len(ck.reports), functions=per, opt_levels=levels, fixtures=fx,
                summary="%d function×level instances, %d instructions, 0 tainted sinks" % (len(per), total_ob) if not ck.reports else "tainted sinks found")
     return ck.finish(cov, ["IR-level argument: the x86 back end is trusted not to introduce secret-dependent branches for the remaining arithmetic",
@@ -103,4 +146,13 @@ def selftest(ck):
             out["%s@%s" % (name, ol)] = len(viol)
             if bool(viol) != want:
                 ck.fail_broken("fixture c19.c:%s@%s: rule %s" % (name, ol, "did not fire" if want else "fired on conforming code: %s" % viol[0][0]))
+    prog = Program(frontend.load_sources([os.path.join(fdir, "c19.c")]))
+    for name, want in (("good_bcmp", False), ("good_memcmp", False), ("bad_result_done", True), ("bad_result_bcmp", True)):
+        try:
+            nst, bad = result_rule(prog.funcs[name], RESULT_SPEC[name])
+        except relval.Undecidable as e:
+            ck.fail_broken("fixture c19.c:%s: result clause undecidable: %s" % (name, e)); continue
+        out["%s:result" % name] = len(bad)
+        if bool(bad) != want:
+            ck.fail_broken("fixture c19.c:%s: result rule %s" % (name, "did not fire" if want else "fired on conforming code: %s" % bad[0]))
     return out
